@@ -253,6 +253,26 @@ def validate_traces(
         cleanup(wd)
 
 
+def tlc_eval(module: str, cfg: str, cases: Any, *, timeout: int = 600, tag: str = "eval") -> Dict[str, Any]:
+    """Direction A, point-wise: TLC evaluates the spec's expectation for every
+    harness-supplied case and writes [out |-> <<...>>, n |-> N]."""
+    wd = workdir(tag)
+    try:
+        tf = wd / "cases.json"
+        of = wd / "out.json"
+        with open(tf, "w") as f:
+            json.dump(cases, f, separators=(",", ":"))
+        res = run_tlc(module, cfg, workers=1, timeout=timeout, env={"TRACE_FILE": str(tf), "OUT_FILE": str(of)}, tag=tag)
+        if not res.no_error or not of.exists():
+            raise MachineryError(f"tlc_eval {module}: {res.violated_invariant or res.other_error or 'no output'}\n{res.error_trace()[:3000]}")
+        out = json.load(open(of))
+        if out.get("n") != len(cases):
+            raise MachineryError(f"tlc_eval {module}: {out.get('n')} of {len(cases)} cases")
+        return {"out": out["out"], "states": res.distinct, "transitions": res.generated}
+    finally:
+        cleanup(wd)
+
+
 # --------------------------------------------------------------------------
 # Violations, replay files, known findings
 # --------------------------------------------------------------------------
